@@ -452,6 +452,11 @@ def run(ctx):
         rep.check(all(v == vals[0] for v in vals) if vals else False if nk else True, 'R03.6', '-', 'siblings:%s' % side,
                   '%d expansions, identical abstract terms: %s' % (len(vals), all(v == vals[0] for v in vals) if vals else None),
                   'all KEM expansions yield the same terms up to their type parameters', None)
+    # R03.7: ExtractAndExpand and DeriveKeyPair are built on LabeledExtract / LabeledExpand: both must absorb exactly
+    # "HPKE-v1" || suite_id || label || ikm resp. I2OSP(L,2) || "HPKE-v1" || suite_id || label || info
+    from . import c02 as _c02
+    _c02.check_labeled_extract(rep, facts, rule='R03.7')
+    _c02.check_labeled_expand(rep, facts, rule='R03.7')
     g = get_an(facts, 'kem::Kem::gen_keypair')
     if g is not None:
         c18.check_gen_keypair(rep, facts, g, 'R03.4')
